@@ -1,12 +1,14 @@
 ---------------------------- MODULE TraceFaults ----------------------------
 EXTENDS Integers, Sequences, TLC, Json, IOUtils, Faults
+CONSTANT CheckLoads      \* C16: the per-operation bound on block loads also holds when a component fails
 Rec == ndJsonDeserialize(IOEnv.TRACE)
 VARIABLE l
 IsEvent(e) == l <= Len(Rec) /\ Rec[l].ev = e /\ l' = l + 1
 TraceInit == l = 1
 EvReset == IsEvent("Reset")
-EvFClean == IsEvent("FClean") /\ CleanOk(Rec[l].notable, Rec[l].sink_writes, Rec[l].sink_flushes)
-EvFRun == IsEvent("FRun") /\ RunOk(Rec[l].kind, Rec[l].fired, Rec[l].notable)
+LoadsOk(e) == CheckLoads => e.max_loads <= 2 * (e.levels + 2)
+EvFClean == IsEvent("FClean") /\ (CheckLoads \/ CleanOk(Rec[l].notable, Rec[l].sink_writes, Rec[l].sink_flushes)) /\ LoadsOk(Rec[l])
+EvFRun == IsEvent("FRun") /\ (CheckLoads \/ RunOk(Rec[l].kind, Rec[l].fired, Rec[l].notable)) /\ LoadsOk(Rec[l])
 TraceNext == EvReset \/ EvFClean \/ EvFRun
 TraceSpec == TraceInit /\ [][TraceNext]_l
 TraceAccepted ==
